@@ -14,6 +14,45 @@ from vt.explore import explore, explore_unmerged  # noqa
 from checks import c10  # noqa
 
 
+def _late_unlink_updater(pio, ups, fmt):
+    """An updater that (wrongly) removes the tile file after giving up the lock: the outcome depends on
+    whether the other updater wrote in between, so the file system must be part of the state key."""
+    import os as _os
+    from toasty.pyramid import Pos
+
+    c10.updater(pio, ups, fmt)
+    if ups and ups[0][2] is None:
+        try:
+            _os.unlink(pio.tile_path(Pos(*ups[0][0]), format=fmt, makedirs=False))
+        except OSError:
+            pass
+
+
+class LateUnlink(c10.UpdateHarness):
+    def fresh(self):
+        import multiprocessing
+        import tempfile
+        from toasty.pyramid import PyramidIO
+        from vt.fixtures import scratch_root
+        from vt.monitors import Monitor
+
+        root = tempfile.mkdtemp(prefix="verif-ks-", dir=scratch_root())
+        pio = PyramidIO(root, scheme=self.scheme, default_format=self.default_format)
+        procs, fmt = self.procs, self.fmt
+
+        def main():
+            ws = []
+            for ups in procs:
+                w = multiprocessing.Process(target=_late_unlink_updater, args=(pio, ups, fmt))
+                w.start()
+                ws.append(w)
+            for w in ws:
+                w.join()
+            return [w.exitcode for w in ws]
+
+        return main, Monitor(), root
+
+
 def main():
     T0 = (0, 0, 0)
     cfgs = [
@@ -22,6 +61,7 @@ def main():
         (stages.Walk(kind="generic", depth=1, W=2, fail_item=(0, 0, 0)), 1),
         (c10.UpdateHarness("2-overlap", [[(T0, c10.R["left"], 1.0)], [(T0, c10.R["mid"], 2.0)]]), 0),
         (c10.UpdateHarness("2x2", [[(T0, c10.R["left"], 1.0), (T0, c10.R["px"], 5.0)], [(T0, c10.R["right"], 2.0)]]), 0),
+        (LateUnlink("late-unlink", [[(T0, c10.R["left"], None)], [(T0, c10.R["right"], 2.0)]]), 0),
     ]
     bad = 0
     for cfg, tm in cfgs:
@@ -30,6 +70,8 @@ def main():
         out_s = set(r.outcomes)
         viol_s = set(r.violations)
         ok = out_u <= out_s and (viol_u - {"deadlock"}) <= viol_s | {"can-wait-forever"}
+        if cfg.name == "late-unlink" and "lost-update" not in viol_s:
+            ok = False  # the defect planted in this scenario must be found
         print("%-60s stateful: %d states, outcomes %d | unmerged: %d executions%s, outcomes %d %s" % (cfg.name[:60], r.states, len(out_s), n, "" if complete else " (capped)", len(out_u), "ok" if ok else "MISMATCH"))
         if not ok:
             print("   unmerged-only outcomes:", sorted(out_u - out_s, key=repr)[:3], "violations:", sorted(viol_u - viol_s))
